@@ -35,6 +35,7 @@ class BuildResult:
         self.log = ''
         self.generated_changed = []
         self.wall_s = 0.0
+        self.reference_model = None   # path of the reference executable used for the search, when the model of this tree could not be built
 
     def describe(self):
         if self.ok:
@@ -205,6 +206,20 @@ def build_exe(prop, res):
     return exe
 
 
+OCAML_REF = os.path.join(VERIF, 'ocaml', 'ref')
+
+
+def save_reference():
+    """after a build in which everything checked: keep a copy of every extracted executable"""
+    import shutil
+    for exe in glob.glob(os.path.join(OCAML_BUILD, '*', 'model.exe')):
+        d = os.path.join(OCAML_REF, os.path.basename(os.path.dirname(exe)))
+        os.makedirs(d, exist_ok=True)
+        tmp = os.path.join(d, 'model.exe.tmp')
+        shutil.copy2(exe, tmp)
+        os.replace(tmp, os.path.join(d, 'model.exe'))
+
+
 def ensure(prop=None, everything=False):
     """Regenerate + build.  Returns (BuildResult, exe path or None).
     Model/Spec/Extract never depend on Proofs/Properties, so the executable model is still
@@ -223,6 +238,8 @@ def ensure(prop=None, everything=False):
             if res.ok:
                 for p in sorted(glob.glob(os.path.join(THEORIES, 'Extract', 'Ex*.v'))):
                     build_exe(os.path.basename(p)[2:-2], res)
+            if res.ok:
+                save_reference()
         else:
             ex_t = [t for t in prop_targets(prop) if '/Extract/' in t]
             pr_t = [t for t in prop_targets(prop) if '/Properties/' in t]
@@ -235,8 +252,14 @@ def ensure(prop=None, everything=False):
             if not r_ex.ok and res.ok:
                 res.ok, res.stage, res.failed_file, res.failed_where = False, r_ex.stage, r_ex.failed_file, r_ex.failed_where
             if exe is None:
-                # fall back to a previously built executable only if nothing at all could be built
-                pass
+                # The model of THIS tree cannot be produced (a translator aborted, or a generated file no longer fits
+                # the model).  That is reported as a broken obligation whatever happens next; for the failing-input
+                # search only, use the reference model: the executable extracted by the last `./check --setup` on
+                # which every theorem checked.
+                ref = os.path.join(OCAML_REF, prop, 'model.exe')
+                if os.path.exists(ref):
+                    exe = ref
+                    res.reference_model = ref
     res.wall_s = time.time() - t0
     return res, exe
 
